@@ -38,6 +38,7 @@ class C20Oracle(RaftOracle):
     def __init__(self, world, app):
         RaftOracle.__init__(self, world, app)
         self.heard = {}            # host -> {peer id: local time of the last message received}
+        self.known_voters = {}     # leader host -> ids of the voters it knew at its previous tick (None: not observed yet)
         self.leader_since = {}     # host -> local time it became leader
         self.cut_epoch = 0
         self.sub_epoch = {}        # tag -> (host, partition epoch, minority?)
@@ -49,6 +50,7 @@ class C20Oracle(RaftOracle):
         if new == LEADER:
             self.w.cur = host.idx
             self.leader_since[host.idx] = self.w.mono()
+            self.known_voters[host.idx] = None
 
     def _minority(self, i):
         w = self.w
@@ -102,10 +104,23 @@ class C20Oracle(RaftOracle):
         timeout = n.conf.leaderFallbackTimeout
         t_start = w.tick_start_mono
         since = self.leader_since.get(h.idx)
+        heard = self.heard.setdefault(h.idx, {})
+        voters = n.otherNodes
+        # a voter that has just become a member of this leader's cluster (a real addition, not a request for an existing
+        # member) starts like all voters do at the beginning of a leadership: the leader cannot have heard from it before
+        known = self.known_voters.setdefault(h.idx, None)
+        ids = set(node.id for node in voters)
+        if known is not None:
+            for i in ids - known:
+                heard[i] = max(heard.get(i, -1e18), w.mono())
+                w.probe('voter_added_under_leader')
+        self.known_voters[h.idx] = ids
+        if known is not None and ids != known:
+            # the leader's voter set changed inside this tick (after its own fallback check, which ran with the set it
+            # had then): judged from the next tick on
+            return
         if since is not None and t_start - since <= timeout:
             return
-        heard = self.heard.get(h.idx, {})
-        voters = n.otherNodes
         cnt = 1
         for node in voters:
             t = heard.get(node.id)
@@ -137,6 +152,19 @@ class C20App(KVApp):
             except Exception as e:
                 return 'exc:' + type(e).__name__
             return ('ok', h.idx)
+        if ev[1] == 'mremx':
+            # a voter is removed from the cluster while it is up and connected (it is shut down once the others have
+            # applied the removal): what the remaining nodes report about their quorum counts the voters they know NOW
+            h = world.hosts[ev[2]]
+            if h.node is None:
+                return 'down'
+            world.cur = h.idx
+            try:
+                h.node.removeNodeFromCluster(world.hosts[ev[3]].addr, callback=lambda res, err: None)
+            except Exception as e:
+                return 'exc:' + type(e).__name__
+            world.fault('voter_removed')
+            return ('ok', h.idx)
         raise HarnessError('unknown event %r' % (ev,))
 
 
@@ -145,14 +173,26 @@ class C20Sched(Scheduler):
         Scheduler.__init__(self, world, rng, cfg)
         self.cut_T = None
         self.cut_leader = None
+        self.removed = None          # voter whose removal was requested
+        self.removed_T = None
 
     def extra_choices(self, items):
         if self.s.get('w_maddx', 0) > 0:
             ups = [h.idx for h in self.w.hosts if h.node is not None and not h.readonly]
             if len(ups) >= 1:
                 items.append((self.s['w_maddx'], 'maddx'))
+        if self.s.get('w_mremx', 0) > 0 and self.removed is None and self.w.groups is None and self.leader_idx() is not None and \
+                len([h for h in self.w.hosts if not h.readonly and h.node is not None]) >= 3:
+            items.append((self.s['w_mremx'], 'mremx'))
 
     def build_extra(self, k, dt):
+        if k == 'mremx':
+            w, rng = self.w, self.rng
+            lead = self.leader_idx()
+            others = [h.idx for h in w.hosts if not h.readonly and h.node is not None and h.idx != lead]
+            self.removed = rng.choice(others)
+            self.removed_T = w.T
+            return [dt, 'mremx', lead, self.removed]
         if k == 'maddx':
             w, rng = self.w, self.rng
             ups = [h.idx for h in w.hosts if h.node is not None and not h.readonly]
@@ -165,8 +205,15 @@ class C20Sched(Scheduler):
         return Scheduler.build_extra(self, k, dt)
 
     def next_event(self):
-        ev = Scheduler.next_event(self)
         w = self.w
+        if self.removed is not None and not w.hosts[self.removed].extra.get('retired') and w.hosts[self.removed].node is not None:
+            addr = w.hosts[self.removed].addr
+            rest = [h for h in w.hosts if h.node is not None and h.idx != self.removed]
+            if all(all(nd.id != addr for nd in h.node.otherNodes) for h in rest) or w.T - self.removed_T > 20.0:
+                # operator discipline: the removed node is shut down (and stays down)
+                w.hosts[self.removed].extra['retired'] = True
+                return [0.0, 'kill', self.removed, 1]
+        ev = Scheduler.next_event(self)
         if ev[1] == 'part':
             lead = self.leader_idx()
             self.cut_T = w.T
@@ -205,6 +252,8 @@ class C20Spec(c01.C01Spec):
             # membership API in use: requests to add nodes that are members already keep arriving
             conf['dynamicMembershipChange'] = True
             s['w_maddx'] = rng.choice([0.05, 0.2])
+            if cfg['n_voters'] >= 3 and rng.random() < 0.5:
+                s['w_mremx'] = rng.choice([0.005, 0.02])
         return cfg
 
     def make_app(self, cfg):
